@@ -33,4 +33,4 @@ void sync(Substrate& s, unsigned W, unsigned R, bool b, bool a, const std::strin
 void resetMirrors(Substrate& s) { s.reset_mirrorField<Reduce_pair_wise_add_array_f_vec>(); }
 } // namespace
 const c18::FieldVT c18::vt_f_vec = {"f_vec", "GALOIS_SYNC_STRUCTURE_REDUCE_PAIR_WISE_ADD_ARRAY(std::vector<double>)", R_ADD,
-                                    K_F64, C18_VECLEN, false, store, load, write, &bitset_f_vec, sync, resetMirrors};
+                                    K_F64, C18_VECLEN, false, false, store, load, write, &bitset_f_vec, sync, resetMirrors};
